@@ -48,6 +48,16 @@ def attemptStep (maxTries : Nat) (s : RcptState) : Option Err → RcptState × D
     else
       (⟨s.tries + 1, some (toSMTPErr e)⟩, .retry)
 
+/-- `partialError.SetStatus` over the statuses a partial-delivery target reports for ONE recipient
+within one attempt, in order (`none` = a success status: ignored): `Errs[rcpt]` is overwritten every
+time, nothing else is kept — `tryDelivery` classifies and records the entry that is left. -/
+def setStatuses : Option Err → List (Option Err) → Option Err
+  | cur, [] => cur
+  | cur, none :: r => setStatuses cur r
+  | _, some e :: r => setStatuses (some e) r
+
+def lastStatus (sts : List (Option Err)) : Option Err := setStatuses none sts
+
 /-- "Internal server error" -/
 def genericText : List Nat :=
   [73, 110, 116, 101, 114, 110, 97, 108, 32, 115, 101, 114, 118, 101, 114, 32, 101, 114, 114, 111, 114]
